@@ -103,6 +103,14 @@ theorem linesearch_two_directions :
 theorem linesearch_no_direction : denCons v φ linesearch0.cons = [(0, true, ⟪v 1 - v 0, v 2⟫)] := by
   unfold linesearch0.cons; step_real v
 
+/-- thirty directions (more than there are letters): one orthogonality condition per direction, none dropped, none added,
+in the order of the list -/
+theorem linesearch_thirty_directions :
+    linesearch30.cons = (0, true, [(EKey.ip 31 32, (1 : Coef)), (EKey.ip 0 32, -1)]) ::
+      (List.range 30).map (fun i => (0, true, [(EKey.ip (i + 1) 32, (1 : Coef))])) ∧
+    linesearch30.trips = [(0, [(31, 1)], [(32, 1)], [(.f 0, 1)])] ∧ linesearch30.newP = 2 ∧ linesearch30.newE = 1 :=
+  ⟨by decide +kernel, rfl, rfl, rfl⟩
+
 theorem linesearch_records :
     linesearch2.trips = [(0, [(3, 1)], [(4, 1)], [(.f 0, 1)])] ∧ linesearch2.retP0 = [(3, 1)] ∧
     linesearch2.retP1 = [(4, 1)] ∧ linesearch2.retE2 = [(.f 0, 1)] ∧ linesearch2.newP = 2 ∧ linesearch2.newE = 1 ∧
